@@ -15,6 +15,7 @@ import (
 
 	"verif/engine"
 	"verif/harness/c03"
+	"verif/harness/c14"
 	"verif/harness/hk"
 	"verif/harness/udpx"
 	"verif/harness/world"
@@ -108,6 +109,15 @@ func scenario(name string, in input, sequential bool) *engine.Scenario {
 			fs = append(fs, more...)
 		}
 		fs = append(fs, ownership(tr)...)
+		if sequential {
+			// "stable while alive" presupposes that the association lives as long as promised
+			_, life := c14.Oracle(tr)
+			for _, f := range life {
+				if f.Sig == "association-expired-early" || f.Sig == "source-changed-while-promised" || f.Sig == "reply-not-relayed-while-promised" {
+					fs = append(fs, f)
+				}
+			}
+		}
 		if len(tr.Open) > 0 {
 			fs = append(fs, &engine.Finding{Sig: "socket-leak", Msg: fmt.Sprint(tr.Open)})
 		}
@@ -134,6 +144,10 @@ func menu() []udpx.Op {
 			udpx.Op{K: "R", C: c, T: 1, N: 16},
 			udpx.Op{K: "X", C: c, T: 0, N: 9},
 		)
+		if c == 0 {
+			// a target whose port merely ends in 53, and its reply
+			m = append(m, udpx.Op{K: "S", C: c, Key: c, T: 6, N: 11}, udpx.Op{K: "R", C: c, T: 6, N: 12})
+		}
 	}
 	// destinations that must not create an association: private literal, name resolving to a private address
 	m = append(m, udpx.Op{K: "S", C: 0, Key: 0, T: 1, N: 4, Mod: "private"}, udpx.Op{K: "S", C: 1, Key: 1, T: 1, N: 4, Mod: "private-domain"})
